@@ -4,6 +4,8 @@
 //! usage: fir-harness <property> --seed N --tier quick|thorough --out DIR
 
 mod c01;
+mod c02;
+mod c03;
 mod c04;
 mod c06;
 mod c08;
@@ -60,6 +62,14 @@ fn main() {
             c01::generate(&mut out, seed, thorough);
             let mut rng = Rng::new(seed ^ 0xC0EF);
             coeffs::generate(&mut out, &mut rng, if thorough { 20000 } else { 2500 }, if thorough { 40 } else { 12 }, &[0, 1, 2, 3, 4, 5, 6]);
+        }
+        "C02" => {
+            c02::generate(&mut out, seed, thorough);
+            c06::generate(&mut out, seed, thorough);
+        }
+        "C03" => {
+            std::fs::create_dir_all(&outdir).unwrap();
+            c03::generate(&mut out, seed, thorough, &outdir);
         }
         "C04" => c04::generate(&mut out, seed, thorough),
         "C05" => rprops::gen_c05(&mut out, seed, thorough),
